@@ -96,6 +96,10 @@ def mergePrints : List String → List String
   | l => l
 termination_by l => l.length
 
+/-- Kept for `Driver/C08.lean`: no item is exempt from the oracle any more — numbers beyond a Go `int`
+    are rendered as the code delivers them (`goI`, `goD`), which `Props.C02Refine.codec_*_holds` proves. -/
+def tooBig (_ : Spec.VT500.Item) : Bool := false
+
 /-- offsets → cluster length -/
 def parseClusters (s : String) : Option (List (Nat × Nat)) :=
   if s = "-" ∨ s = "" then some [] else
